@@ -15,6 +15,7 @@
 #include <cfenv>
 #include <random>
 
+#include "libfive.h"
 #include "libfive/tree/tree.hpp"
 #include "libfive/tree/data.hpp"
 #include "libfive/tree/opcode.hpp"
@@ -619,6 +620,60 @@ int main(int argc, char** argv) {
                     pos += adv; ++qi;
                 }
                 out("HI queries=" + std::to_string(qi) + " bad=" + std::to_string(nbad) + firstbad);
+            }
+            else if (c == "deriv") {
+                // deriv h x y z (var values)* : value+gradient single and batched, variable partials
+                std::map<Tree::Id, float> vars;
+                for (size_t k = 0; k < cx.vars.size(); ++k)
+                    vars[cx.vars[k].id()] = (5 + k < t.size()) ? of_hex32(t[5 + k]) : 0.0f;
+                Eigen::Vector3f p(of_hex32(t[2]), of_hex32(t[3]), of_hex32(t[4]));
+                Evaluator e(H(t[1]), vars);
+                Eigen::Vector4f d = e.deriv(p);
+                // batched: the same point in several slots of several batch sizes
+                int bad = 0;
+                for (int n : {1, 3, 16, 17, 33, 256}) for (int slot : {0, n / 2, n - 1}) {
+                    for (int k = 0; k < n; ++k) e.set(Eigen::Vector3f(0.3f * k - 1, 0.1f * k, 1 - 0.2f * k), k);
+                    e.set(p, slot);
+                    auto r = e.derivs(n);
+                    for (int j = 0; j < 4; ++j) { float w = r(j, slot), v = d(j); if (memcmp(&w, &v, 4) != 0 && !(std::isnan(w) && std::isnan(v))) ++bad; }
+                }
+                auto g = e.gradient(p);
+                std::string gs;
+                for (size_t k = 0; k < cx.vars.size(); ++k) { auto it = g.find(cx.vars[k].id()); if (it != g.end()) gs += (gs.empty() ? "" : ",") + std::to_string(k) + ":" + hex32(it->second); }
+                libfive_vec3 cd = libfive_tree_eval_d(H(t[1]).get(), {p.x(), p.y(), p.z()});
+                // (a separately built evaluator; compared by the check at smooth points only)
+                std::string capi_s = hex32(cd.x) + "," + hex32(cd.y) + "," + hex32(cd.z);
+                out("DV " + hex32(d(3)) + " " + hex32(d(0)) + " " + hex32(d(1)) + " " + hex32(d(2)) + " batchbad=" + std::to_string(bad)
+                    + " capi=" + capi_s + " vars " + gs);
+            }
+            else if (c == "feat") {
+                // feat h x y z : features at a (possibly tied) point; each must be the gradient of a branch,
+                // i.e. the smooth gradient at some nearby point; isInside consistency
+                Tree tr = H(t[1]);
+                std::map<Tree::Id, float> vars;
+                for (size_t k = 0; k < cx.vars.size(); ++k) vars[cx.vars[k].id()] = 0.25f * (k + 1);
+                Eigen::Vector3f p(of_hex32(t[2]), of_hex32(t[3]), of_hex32(t[4]));
+                Evaluator e(tr, vars);
+                auto fs = e.features(p);
+                float val = e.value(p);
+                bool inside = e.isInside(p);
+                std::mt19937 rng(4242);
+                std::uniform_real_distribution<float> dist(-1.0f, 1.0f);
+                std::vector<Eigen::Vector3f> nearby;
+                for (float eps : {1e-3f, 3e-4f}) for (int k = 0; k < 60; ++k) {
+                    Eigen::Vector3f q = p + eps * Eigen::Vector3f(dist(rng), dist(rng), dist(rng));
+                    auto d = e.deriv(q);
+                    nearby.push_back(d.head<3>());
+                }
+                int unmatched = 0; std::string info;
+                for (auto& f : fs) {
+                    bool ok = false;
+                    for (auto& n : nearby) if ((n - f).norm() <= 2e-2f * (1 + f.norm())) { ok = true; break; }
+                    if (!ok && !(f.array().isNaN().any())) { if (!unmatched) info = " f=" + hex32(f.x()) + "," + hex32(f.y()) + "," + hex32(f.z()); ++unmatched; }
+                }
+                bool inside_ok = (val == 0 || std::isnan(val)) ? true : (inside == (val < 0));
+                out("FT n=" + std::to_string(fs.size()) + " unmatched=" + std::to_string(unmatched) + " inside_ok=" + (inside_ok ? "1" : "0")
+                    + " val=" + hex32(val) + info);
             }
             else if (c == "ivcheck") {
                 // ivcheck h lx ly lz ux uy uz exact(0/1) : C02's statement on one expression and box
